@@ -21,7 +21,7 @@ import z3
 
 from . import sym, spec
 from .contract import REGISTRY, TRANSPARENT
-from .engine import (BoundMethod, Closure, ExcVal, Executor, Fresh, NeedsContract, Obj, State, SuperProxy,
+from .engine import (BoundMethod, Closure, ExcVal, Executor, Fresh, NeedsContract, Obj, PartialVar, State, SuperProxy,
                      Unsupported, function_node)
 from .sym import is_sym, z
 
@@ -546,7 +546,7 @@ class World:
             yield st, case.value(a)
             return
         r = case.result(ex.fresh, a)
-        for label, f in case.ensures(r, a):
+        for label, f in case.assume(ex.fresh, r, a):
             st.assume(f)
         yield st, r
 
@@ -766,7 +766,99 @@ class World:
                 yield s_exit, None
 
     def try_merge_if(self, ex, s, st, t):
+        """if both arms of `if t:` run to completion on a single path each (no return/raise/break, no pending
+        raise) and differ only in scalar variables, continue on ONE merged path (ITE values, path conditions
+        guarded by t) instead of two.  Obligations raised inside an arm keep that arm's own path condition."""
+        if ex.case is not None and ex.case.options().get("merge_ifs") is False:
+            return None
+        n_obl = len(ex.obligations)
+        outs = []
+        ex._raises.append([])
+        try:
+            try:
+                for cond, tag, body in ((t, "T", s.body), (sym.Not(t), "F", s.orelse)):
+                    sub = st.fork(cond, f"L{s.lineno}{tag}m")
+                    if not ex.feasible(sub):
+                        outs.append(None)
+                        continue
+                    r = ex.run(body, sub) if body else [(sub, None)]
+                    outs.append(r)
+            finally:
+                pend = ex._raises.pop()
+        except Unsupported:
+            del ex.obligations[n_obl:]
+            raise
+        ok = not pend and all(r is None or (len(r) == 1 and r[0][1] is None) for r in outs) and any(r is not None for r in outs)
+        if ok and all(r is not None for r in outs):
+            (sa, _), (sb, _) = outs[0][0], outs[1][0]
+            keys = set(sa.env) | set(sb.env)
+            merged = {}
+            for k in keys:
+                if k not in sa.env or k not in sb.env:
+                    if k in st.env:
+                        ok = False
+                        break
+                    # bound on one arm only: usable afterwards only under that arm's condition
+                    merged[k] = PartialVar(t if k in sa.env else sym.Not(t), sa.env.get(k, sb.env.get(k)))
+                    continue
+                va, vb = sa.env[k], sb.env[k]
+                if va is vb:
+                    merged[k] = va
+                elif (sym.is_num(va) or sym.is_bool(va)) and (sym.is_num(vb) or sym.is_bool(vb)) and sym.is_bool(va) == sym.is_bool(vb):
+                    if not is_sym(va) and not is_sym(vb) and va == vb and type(va) is type(vb):
+                        merged[k] = va
+                    else:
+                        merged[k] = sym.If(t, va, vb)
+                else:
+                    ok = False
+                    break
+            if ok and (sa.frames != sb.frames or sa.ghost != sb.ghost):
+                ok = False
+            if ok:
+                base = len(st.pc)
+                ea = [z(c) for c in sa.pc[base + 1:]]
+                eb = [z(c) for c in sb.pc[base + 1:]]
+                st.env = merged
+                for c in ea:
+                    st.pc.append(z3.Implies(z(t), c))
+                for c in eb:
+                    st.pc.append(z3.Implies(z3.Not(z(t)), c))
+                st.sig.append(f"L{s.lineno}M")
+                return [(st, None)]
+        if ok and sum(r is not None for r in outs) == 1:
+            # one arm is infeasible: continue on the other
+            r = outs[0] if outs[0] is not None else outs[1]
+            ex.dead.append((ex.owner, s.lineno, "then" if outs[0] is None else "else"))
+            return [r[0]]
+        # not mergeable: roll back and let the caller fork
+        del ex.obligations[n_obl:]
         return None
+
+    def do_cut(self, ex, cut, stmts, i, st):
+        """establish the cut assertion on this path; continue (once) from a state that knows only the entry
+        assumptions and the assertion"""
+        label = cut.name
+        for name, f in cut.inv(Env(st.env), Env(ex.entry_env), ex.args0):
+            ex.oblige(st, f, "cut", f"{label}.{name}", line=stmts[i].lineno)
+        if label in ex.cut_done:
+            return None
+        ex.cut_done.add(label)
+        cont = State(dict(ex.entry_env), list(ex.entry_pc), ["cut:" + label])
+        cont.frames = [dict(f) for f in st.frames]
+        assigned = self._assigned(stmts[:i])
+        for name in sorted(assigned):
+            if name in st.env:
+                v = st.env[name]
+                if isinstance(v, PartialVar):
+                    continue
+                if name in cut.havoc_real and not sym.is_reallike(v):
+                    v = sym.toreal(v)
+                cont.env[name] = self._havoc(ex, name, v, "cut")
+        for c in ex.fresh.side:
+            cont.assume(c)
+        for name, f in cut.inv(Env(cont.env), Env(ex.entry_env), ex.args0):
+            cont.assume(f)
+        return cont
 
     def on_yield(self, ex, st, v, line):
         pass
